@@ -35,7 +35,7 @@ def handle_section_failure(case, lines):
 class C19(Prop):
     pid = "C19"
     lean_module = "RxModel.Props.C19"
-    extra_modules = ("RxModel.Props.C19T",)
+    extra_modules = ("RxModel.Props.C19T", "RxModel.Props.C02S")
     design_ref = "DESIGN.md §6 C19"
     rule = ("one-shot tasks (timer, delay, delay_subscription, subscribe_on, debounce/throttle windows), subscribing "
             "tasks and repeating tasks (interval, buffer_with_time) with delays from {0,1,2,5,10} on the virtual clock; "
@@ -72,13 +72,27 @@ class C19(Prop):
             for cut in range(1, len(base) + 1):
                 evs = base[:cut] + [["unsub"]] + base[cut:] + [["adv", "5"], ["run"]]
                 out.append(Case("time", "local", [("pipe", [src])], evs, {"kind": "cancel-phase"}))
-        return tg.with_units(seed, out)
+        out = tg.with_units(seed, out)
+        # cancellation racing the executor / an emitter on two real OS threads (suite `coop`, see C02):
+        # a cancelled task stays cancelled, nothing runs after `unsubscribe()` has returned
+        from .. import coopgen as cg
+        out += cg.cases(tier, seed)
+        return out
+
+    def compare_from(self, case):
+        if case.suite == "coop":
+            from .. import coopgen as cg
+            return 0 if cg.modelled(case) else len(case.events)
+        return 0
 
     def project(self, body):
         from .c10 import strip_lock
         return strip_lock(body)
 
     def oracle(self, case, lines, model_lines=None):
+        if case.suite == "coop":
+            from .. import coopgen as cg
+            return cg.oracle(case, lines)
         pipe = case.field("pipe")[0]
         unsub = False
         f = handle_section_failure(case, lines)
@@ -105,6 +119,9 @@ class C19(Prop):
         return None
 
     def signature(self, case, failure):
+        if case.suite == "coop":
+            from .. import coopgen as cg
+            return cg.signature(case, failure)
         node = case.field("pipe")[0]
         hs = []
         while isinstance(node, list) and node:
@@ -113,6 +130,9 @@ class C19(Prop):
         return f"{failure['kind']}|time|{','.join(sorted(set(hs)))}"
 
     def shrink_candidates(self, case):
+        if case.suite == "coop":
+            from .. import coopgen as cg
+            return cg.shrink_candidates(case)
         return tg.time_shrink(case)
 
 
